@@ -44,16 +44,17 @@ Scope since the C02 repair 129dd3d (statement and proof unchanged — it is abou
 `File`, in which `ParseIndirectObject` at an offset is a function of the file alone): that
 abstraction holds for the code as long as no lookup loads more than `maxNestedLoads` = 16
 objects inside each other (indirect `/Length` chains; every file conforming to ISO 32000-1 nests
-at most 3). Beyond that the code's answer at an offset depends on how deep the lookup stands
-and on the caches, and the statement is FALSE for the code:
-`C04NC.nested_cache_order_dependence_counterexample`; within the limit the caches on such
-chains are again order-free: `C04NC.nested_cache_order_free_partial`. -/
+at most 3). Beyond that the code's answer at an offset depends on how deep the lookup stands —
+but, since the repair 8b4ac6e, no longer on the caches: a cache hit is counted as the load it
+stands for, and on chains of every length the caches are order-free
+(`C04NC.nested_cache_order_free`; the rule of 129dd3d, under which the statement was FALSE for
+the code beyond the limit, is kept in `C04NC.nested_cache_order_dependence_pinned_counterexample`). -/
 theorem getObject_refines (f : File) (ops : List Op) :
     run f {} ops = specRun f ops := run_refines f ops {} (cacheOk_empty f)
 
 /-- **lookup_order_free**: whatever was looked up or cleared before, in whatever order and
-however often, `get n` answers `specGet n`. (Scope: as for `getObject_refines` — files whose
-lookups nest at most 16 loads.) -/
+however often, `get n` answers `specGet n`. (Scope: as for `getObject_refines`; beyond 16
+nested loads see `C04NC.nested_cache_order_free`.) -/
 theorem lookup_order_free (f : File) (before : List Op) (n : Nat) :
     (run f {} (before ++ [.get n])).getLast? = some (specGet f n) := by
   rw [getObject_refines]
